@@ -4,8 +4,10 @@ import (
 	"encoding/json"
 	"fmt"
 	"reflect"
+	"strings"
 
 	"github.com/containerd/nri/pkg/api"
+	rspec "github.com/opencontainers/runtime-spec/specs-go"
 
 	"verif/harness/internal/coqfmt"
 	"verif/harness/internal/hx"
@@ -108,6 +110,58 @@ func driveGen(c *hx.Ctx) error {
 		if i < 2 {
 			c.Sample(cs, 2)
 		}
+	}
+	// implementation-only stream (the CDI injector is a runtime call-back outside the model): an injector that
+	// itself adds a mount — the parent directory of a mount the adjustment sets — and a device; after
+	// Generator.Adjust every mount must still come after the mounts of its parent directories, the adjusted
+	// mount must be present, and repetitions must agree
+	for i := 0; i < c.Pick(40, 600); i++ {
+		spec := g.container("", i%2 == 0)
+		spec.ID = ""
+		child := fmt.Sprintf("/cdi/v%d/data/cache%d", g.r.Intn(3), i)
+		parent := child[:strings.LastIndex(child, "/")]
+		adj := &nm.Adjust{CDI: []string{fmt.Sprintf("vendor.com/dev=inj%d", i)}, Mounts: []nm.Mount{g.mount(child, 1+g.r.Intn(5))}}
+		if g.r.Intn(2) == 0 {
+			adj.Mounts = append(adj.Mounts, g.mount(mountDsts[g.r.Intn(len(mountDsts))], 2))
+		}
+		var first []string
+		for k := 0; k < 4; k++ {
+			sp := buildSpec(spec)
+			gen := xgenWithInjector(sp, func(s *rspec.Spec, names []string) error {
+				s.Mounts = append(s.Mounts, rspec.Mount{Destination: parent, Type: "bind", Source: "/host" + parent, Options: []string{"ro"}})
+				return nil
+			})
+			if err := gen.Adjust(adj.ToAPI()); err != nil {
+				return fmt.Errorf("generator failed on cdi-mount case %d: %v", i, err)
+			}
+			var dests []string
+			for _, m := range sp.Mounts {
+				dests = append(dests, m.Destination)
+			}
+			raw := map[string]interface{}{"spec": spec, "adjust": adj, "injected_mount": parent, "mounts_after": dests}
+			pi, ci := -1, -1
+			for x, d := range dests {
+				if d == parent {
+					pi = x
+				}
+				if d == child {
+					ci = x
+				}
+			}
+			switch {
+			case pi < 0 || ci < 0:
+				c.ImplFail("gen", fmt.Sprintf("C13: after Adjust with a CDI injector the mount %q or the injected %q is missing", child, parent), raw)
+			case ci < pi:
+				c.ImplFail("gen", fmt.Sprintf("C13: mount %q (#%d) comes before the mount of its parent directory %q (#%d) injected by the CDI call-back", child, ci, parent, pi), raw)
+			}
+			if k == 0 {
+				first = dests
+			} else if !reflect.DeepEqual(first, dests) {
+				c.ImplFail("gen", "C13: the same spec, adjustment and CDI injector gave different mount lists on repetition", raw)
+			}
+		}
+		c.Eval(fmt.Sprintf("cdimount/%d/%s", i, child), true)
+		c.Count("stream.cdimounts", 1)
 	}
 	c.Stats.Rule = fmt.Sprintf("gen: random OCI specs (process and linux sections) x random adjustments mixing set / removal / remove-then-set / set-then-remove over all adjustable fields, a mounts stream with unclean and nested destinations; each case executed %d times on fresh specs to expose map-order dependence; all are non-trivial; distinct by full input", runs)
 	return nil
